@@ -92,6 +92,12 @@ def _block(gen, ep_stub, kind=None):
         a_, h_ = rng.choice([(b'', b'evil.example'), (b'example.com', b''), (b'a', b'a')])
         pairs.insert(0, (b':authority', a_))
         pairs.append((b'host', h_))
+    if rng.random() < 0.08:
+        # cookie crumbs (RFC 7540 8.1.2.5), one of them - not the first, not the last - with whitespace around its value
+        crumbs = [(b'cookie', b'a=1'), (b'cookie', rng.choice([b' b=2', b'b=2 ', b'\tb=2', b'  b=2  '])), (b'cookie', b'c=3')]
+        if rng.random() < 0.5:
+            crumbs.insert(1, (b'cookie', b'mid=0'))
+        pairs.extend(crumbs)
     if rng.random() < 0.05:
         pairs.append((b'content-length', rng.choice([b'0', b'5', b'abc', b'-1', b'99999999999999999999'])))
     enc = RefEncoder()
@@ -177,6 +183,9 @@ def draw(gen):
         # that is perfectly able to carry promises
         used = [x for x in vt.streams.values() if x.sid % 2 == 0]
         parents = [x for x in vt.streams.values() if x.mine and not x.pushed and x.state in ('open', 'hcL')]
+        resetp = [x for x in vt.streams.values() if x.mine and not x.pushed and x.state == 'closed' and x.closed_by == 'rst_sent']
+        if resetp and rng.random() < 0.5:
+            parents = resetp        # ... or on one the victim has reset: there is nothing to refuse
         if used and parents:
             frag, _ = _block(gen, stub, 'request')
             fr = C.mk_push_promise(rng.choice(parents).sid, rng.choice(used).sid, frag, True, None)
